@@ -50,6 +50,7 @@ type Exec struct {
 	oblPrefix  string
 	wholeHavoc map[string]bool
 	noPrune     int
+	caseHint    *caseHint
 	knownWidth  map[int]int
 	collectLocs *[]Loc
 	extra       map[*Cell]Val
@@ -91,6 +92,11 @@ type loopInfo struct {
 	phiFresh map[*ssa.Phi]*Term
 }
 
+type caseHint struct {
+	x    *Term
+	vals []*Term
+}
+
 type unsupported struct{ msg string }
 
 func (e *Exec) fail(format string, a ...interface{}) {
@@ -108,7 +114,21 @@ func (e *Exec) oblige(st *State, kind, name string, cond *Term, pos token.Pos) {
 	if n := e.oblNames[full]; n > 1 {
 		full = fmt.Sprintf("%s#%d", full, n)
 	}
-	if !isTrue(cond) {
+	if h := e.caseHint; h != nil && !isTrue(cond) {
+		// proof hint: split the obligation by the value of a term; coverage of the cases is an obligation too
+		e.caseHint = nil
+		var alts []*Term
+		for _, v := range h.vals {
+			eq := e.c.Eq(h.x, v)
+			alts = append(alts, eq)
+			// substitute equals for equals so that arithmetic with the literal folds; keep x == v itself
+			memo := map[int]*Term{}
+			r2 := e.c.And(e.c.Subst(st.reach, h.x, v, memo), eq)
+			c2 := e.c.Subst(cond, h.x, v, memo)
+			e.obls = append(e.obls, &Obligation{Name: fmt.Sprintf("%s[%s]", full, e.c.Show(v)), Kind: kind, Reach: r2, Cond: c2, Pos: pos})
+		}
+		e.obls = append(e.obls, &Obligation{Name: full + "[cases-cover]", Kind: kind, Reach: st.reach, Cond: e.c.Or(alts...), Pos: pos})
+	} else if !isTrue(cond) {
 		e.obls = append(e.obls, &Obligation{Name: full, Kind: kind, Reach: st.reach, Cond: cond, Pos: pos})
 	} else {
 		e.obls = append(e.obls, &Obligation{Name: full, Kind: kind, Reach: st.reach, Cond: cond, Pos: pos, Detail: "trivial"})
@@ -229,6 +249,7 @@ func (e *Exec) run(fr *Frame, args []Val, st *State) (*State, []Val) {
 			}
 			switch x := ins2.(type) {
 			case *ssa.Return:
+				e.siteAsserts(fr, cur, x.Pos(), 0)
 				var vs []Val
 				for _, r := range x.Results {
 					vs = append(vs, e.operand(fr, r))
@@ -740,7 +761,9 @@ func (e *Exec) instr(fr *Frame, st *State, ins ssa.Instruction) {
 		}
 		fr.vals[x] = tv.Tup[x.Index]
 	case *ssa.Call:
+		e.siteAsserts(fr, st, x.Pos(), 1)
 		fr.vals[x] = e.call(fr, st, x, &x.Call)
+		e.siteAsserts(fr, st, x.Pos(), 2)
 	case *ssa.Defer:
 		if x.Block() != fr.fn.Blocks[0] && !dominatesReturns(x.Block(), fr.fn) {
 			e.fail("conditional defer in %s", fr.fn)
@@ -765,6 +788,34 @@ func (e *Exec) instr(fr *Frame, st *State, ins ssa.Instruction) {
 		e.fail("slice to array pointer conversion")
 	default:
 		e.fail("unsupported instruction %T in %s", ins, fr.fn)
+	}
+}
+
+// siteAsserts: contract assertions attached to a return statement (kind 0) or to a call (1 before, 2 after).
+func (e *Exec) siteAsserts(fr *Frame, st *State, pos token.Pos, kind int) {
+	if fr.spec == nil || len(fr.spec.Asserts) == 0 || e.pure > 0 || pos == token.NoPos {
+		return
+	}
+	pp := e.eng.fset.Position(pos)
+	for _, a := range fr.spec.Asserts {
+		switch kind {
+		case 0:
+			if !a.AtReturn {
+				continue
+			}
+		case 1:
+			if a.AtReturn || !a.Before {
+				continue
+			}
+		case 2:
+			if a.AtReturn || a.Before {
+				continue
+			}
+		}
+		if a.File == pp.Filename && a.Off == pp.Offset {
+			t := e.evalClauseAt(fr, a.Clause, st, nil)
+			e.oblige(st, "assert", "assert:"+a.Clause.Label, t, pos)
+		}
 	}
 }
 
@@ -861,15 +912,13 @@ func (e *Exec) indexAddr(fr *Frame, st *State, x *ssa.IndexAddr) {
 		idx := c.Add(e.tm.SliceOff(s), iv)
 		if isStructT(u.Elem()) {
 			fr.vals[x] = Val{T: e.elemRef(e.tm.SliceBase(s), idx)}
-		} else if isArrayT(u.Elem()) {
-			e.fail("slice of arrays")
 		} else {
 			fr.vals[x] = Val{P: &Ptr{kind: pElem, obj: e.tm.SliceBase(s), idx: idx, elemT: u.Elem()}}
 		}
 	case *types.Pointer:
 		at := u.Elem().Underlying().(*types.Array)
 		e.check(st, "safe-index", x, c.And(c.Le(c.Int(0), iv), c.Lt(iv, c.Int(at.Len()))))
-		if xv.P != nil && (xv.P.kind == pCell || xv.P.kind == pGlobal) {
+		if xv.P != nil && (xv.P.kind == pCell || xv.P.kind == pGlobal || xv.P.kind == pElem) {
 			np := *xv.P
 			np.path = append(append([]pathStep{}, xv.P.path...), pathStep{kind: stIndex, idx: iv, typ: u.Elem()})
 			fr.vals[x] = Val{P: &np}
